@@ -195,8 +195,8 @@ impl Model<Asn<Unresolved>> {
         let string = {
             // boolean or integer
             #[allow(clippy::blocks_in_if_conditions)]
-            if iter.peek_is_text_eq_ignore_case("true")
-                || iter.peek_is_text_eq_ignore_case("false")
+            if iter.peek_is_text_eq("TRUE")
+                || iter.peek_is_text_eq("FALSE")
                 || iter.peek_is_text_and_satisfies(|slice| {
                     slice.chars().all(|c| c.is_ascii_digit())
                         || (slice.starts_with('-')
